@@ -167,8 +167,9 @@ def check_nodes(nodes, T, col, case, label):
             u = n.unwrapped
             if not (isinstance(u, FR) and u.__forward_arg__ == n.type.__value__):
                 viol("6-string-alias-deferred", f"node #{i} {n!r}: unwrapped is not a ForwardRef to the alias body")
-            if sum(1 for m in nodes if m.type is n.type and m.var == n.var) != 1:
-                viol("6-string-alias-deferred", f"alias {n.type!r} has several nodes")
+            # exactly one node of its own; further nodes flagged cyclic are revisits (clauses 4/5 judge those)
+            if not n.cyclic and sum(1 for m in nodes if m.type is n.type and m.var == n.var and not m.cyclic) != 1:
+                viol("6-string-alias-deferred", f"alias {n.type!r} has several nodes of its own")
     rs = U.strip  # noqa: F841
 
 
